@@ -272,7 +272,7 @@ def check(prog, rep):
                            f"pdb2pqr/{rel}:{n.lineno} ({qual})")
 
     # ------------------------------------------------------------------ R6
-    r6 = rep.rule("R6", "the APBS input names the PQR file just written", floor=4)
+    r6 = rep.rule("R6", "the APBS input names the PQR file just written", floor=2)
     md = prog.func("main.py", "main_driver").node
     dcall = next((c for c in calls_in(md) if U(c.func) == "io.dump_apbs"), None)
     r6.add("main->dump_apbs", dcall is not None and U(dcall.args[0]) == "args.output_pqr",
@@ -282,6 +282,12 @@ def check(prog, rep):
     opens = [c for c in calls_in(pp) if U(c.func) == "open"]
     r6.add("written-path", bool(opens) and U(opens[0].args[0]) == "args.output_pqr", "print_pqr opens args.output_pqr",
            f"pdb2pqr/main.py:{pp.lineno} (print_pqr)")
+    n_rules, n_def = len(rep.rules), len(rep.deferred)
+    rep.guarded(rule_model_rendering, prog, rep)
+    if len(rep.rules) > n_rules and len(rep.deferred) == n_def:
+        return  # dump_apbs and the renderer are decided on the model files; the shape obligations below are the fallback
+    if len(rep.deferred) > n_def:
+        rep.deferred.pop()
     da = prog.func("io.py", "dump_apbs").node
     p0 = da.args.args[0].arg
     icall = next((c for c in calls_in(da) if U(c.func) == "inputgen.Input"), None)
@@ -490,3 +496,137 @@ def rule_model_sizing(prog, rep):
             r.add("large|parallel-plan", "Parallel solve required" in text and all(isinstance(n, int) and (n - 1) % 32 == 0 and n >= 33 for n in ns),
                   f"the large model needs a parallel solve; per-processor grid {ns} must again be integers of the form 32k+1", where)
     r.info["methods_interpreted"] = sorted(set(run.calls))
+
+
+def rule_model_rendering(prog, rep):
+    """io.dump_apbs and the input renderer (inputgen.Input / Elec) are evaluated on the model PQR files: the file system is a dictionary
+    path -> lines, the PQR is the one print_pqr wrote.  For every solution method the renderer knows, the text must name that PQR file
+    and state the grid the sizing object computed for it."""
+    import re as _re
+    from pathlib import PurePosixPath
+
+    from ..guards import Flow, Obj
+    from ..objinterp import ObjRunner
+    from .shared import pqr_model, written_file
+    r = rep.rule("R8", "model runs: the rendered APBS input names the PQR file just written and states the grid computed for it", floor=6)
+    where = "pdb2pqr/io.py (dump_apbs) / pdb2pqr/inputgen.py (Input, Elec)"
+    small, _ = pqr_model(prog)
+    n0 = 100
+    extra = tuple(("HETATM" if k % 2 else "ATOM", n0 + k, "C", "XXX", None, 500 + k, None, 20.0 + dx, 10.0 + dy, 5.0 + dz, 0.25, 1.5)
+                  for k, (dx, dy, dz) in enumerate(((180.0, 0.0, 0.0), (0.0, -150.0, 0.0), (0.0, 0.0, 160.0), (-90.0, 80.0, -70.0))))
+    big, _ = pqr_model(prog, extra)
+
+    def file_hook(files):
+        def hook(run, interp, call, args, kw):
+            name = U(call.func)
+            if name in ("Path", "pathlib.Path") and len(args) == 1:
+                src = args[0]["__str__"] if isinstance(args[0], dict) else args[0]
+                if not isinstance(src, str):
+                    return NotImplemented
+                p_ = PurePosixPath(src)
+                return Obj({"__class__": "<path>", "__str__": src, "name": p_.name, "stem": p_.stem, "suffix": p_.suffix,
+                            "parent": Obj({"__class__": "<path>", "__str__": str(p_.parent), "name": p_.parent.name, "stem": p_.parent.stem,
+                                           "suffix": p_.parent.suffix})})
+            if name == "str" and len(args) == 1 and isinstance(args[0], dict) and args[0].get("__class__") == "<path>":
+                return args[0]["__str__"]
+            if name == "open" and args:
+                path = args[0]["__str__"] if isinstance(args[0], dict) else args[0]
+                mode = args[1] if len(args) > 1 else kw.get("mode", "r")
+                if "w" in mode:
+                    files[path] = []
+                elif path not in files:
+                    raise Flow("raise", f"FileNotFoundError({path!r})", call)
+                return Obj({"__class__": "<file>", "path": path, "mode": mode})
+            if isinstance(call.func, ast.Attribute) and call.func.attr in ("readlines", "read", "write", "close", "readline"):
+                recv = interp.ev(call.func.value)
+                if isinstance(recv, dict) and recv.get("__class__") == "<file>":
+                    if call.func.attr == "write":
+                        files[recv["path"]].append(args[0])
+                        return None
+                    if call.func.attr == "close":
+                        return None
+                    text = "".join(files[recv["path"]])
+                    if call.func.attr == "read":
+                        return text
+                    if call.func.attr == "readlines":
+                        return text.splitlines(keepends=True)
+            return NotImplemented
+        return hook
+
+    one = [small[0], small[1]] + list(small[-2:])
+    for label, model in (("one-atom", one), ("large", big)):
+        atoms = [w for _, w in model if w is not None]
+        try:
+            pqr_lines = written_file(prog, [ln for ln, w in model if w is not None or not ln.startswith("REMARK")], False, False)
+        except AnalysisError:
+            pqr_lines = [ln for ln, _ in model]
+        # 1. the route --apbs-input takes, for output names with the usual suffix, another suffix, two dots, and none
+        sizes = _sizing(prog, pqr_lines)
+        failed = False
+        for pqrpath in (("out/model.pqr", "out/complex.v2.PQR", "out/charged.txt", "result") if label == "one-atom" else ("out/model.pqr",)):
+            other = ["ATOM      1  C   XXX     1     900.000 900.000 900.000  0.0000 1.0000\n"]
+            files = {pqrpath: list(pqr_lines), "out/other.pqr": other, PurePosixPath(pqrpath).stem + ".pqr": other}
+            files[pqrpath] = list(pqr_lines)
+            run = ObjRunner(prog, "io.py", extra_hook=file_hook(files))
+            try:
+                run.call_function("io.py", "dump_apbs", pqrpath, "out/model.in")
+            except Flow as fl:
+                r.bad(f"{label}|dump_apbs|{pqrpath}", f"dump_apbs stops with {fl.value} on the {label} model written as {pqrpath}", where)
+                failed = True
+                continue
+            text = "".join(files.get("out/model.in", []))
+            _judge_input(r, f"{label}|dump_apbs|{pqrpath}", text, PurePosixPath(pqrpath).name, sizes, atoms, where)
+        if failed:
+            continue
+        # 2. the renderer for every method it knows (and the automatic choice)
+        for method in ("mg-auto", "mg-para", "mg-manual", ""):
+            run = ObjRunner(prog, "inputgen.py", extra_hook=file_hook({}))
+            try:
+                size = _sizing(prog, pqr_lines, runner=run)
+                inp = run.new("Input", "out/model.pqr", size, method, False, 0, potdx=True)
+                text = run.call(inp, "__str__")
+            except Flow as fl:
+                r.bad(f"{label}|render|{method or 'automatic'}", f"rendering the input for method {method or 'chosen automatically'!r} stops with "
+                      f"{fl.value} on the {label} model", where)
+                continue
+            _judge_input(r, f"{label}|render|{method or 'automatic'}", text, "model.pqr", size, atoms, where, method=method)
+
+
+def _sizing(prog, lines, runner=None):
+    from ..objinterp import ObjRunner
+    run = runner or ObjRunner(prog, "psize.py")
+    p = run.new("Psize")
+    run.call(p, "parse_lines", list(lines))
+    run.call(p, "set_all")
+    return p
+
+
+def _judge_input(r, key, text, pqrname, size, atoms, where, method=None):
+    import re as _re
+    if not isinstance(text, str) or not text:
+        r.bad(key, "no input text was produced", where)
+        return
+    mol = _re.findall(r"^\s*mol pqr (\S+)\s*$", text, _re.M)
+    meth = _re.findall(r"^\s*(mg-[a-z]+)\s*$", text, _re.M)
+    dime = [tuple(map(int, m)) for m in _re.findall(r"^\s*dime (-?\d+) (-?\d+) (-?\d+)\s*$", text, _re.M)]
+    problems = []
+    if mol != [pqrname]:
+        problems.append(f"'mol pqr' names {mol}, the PQR file is {pqrname!r}")
+    if not meth or len(set(meth)) != 1 or (method and meth[0] != method):
+        problems.append(f"solution method lines {meth}" + (f", requested {method!r}" if method else ""))
+    want = tuple(size["nsmall"]) if meth and meth[0] == "mg-para" else tuple(size["ngrid"])
+    if not dime or any(d != want for d in dime):
+        problems.append(f"dime lines {dime}; the sizing object has ngrid {size['ngrid']}, per-processor grid {size['nsmall']}")
+    if any(not (n >= 33 and (n - 1) % 32 == 0) for d in dime for n in d):
+        problems.append(f"dime {dime} is not of the form 32k+1 >= 33")
+    for tag, attr in (("cglen", "coarse_length"), ("fglen", "fine_length"), ("glen", "coarse_length")):
+        for m in _re.findall(rf"^\s*{tag} (\S+) (\S+) (\S+)\s*$", text, _re.M):
+            if any(abs(float(a) - b) > 6e-4 for a, b in zip(m, size[attr])):
+                problems.append(f"{tag} {m} differs from the computed {attr} {[round(x, 4) for x in size[attr]]}")
+    if meth and meth[0] in ("mg-auto", "mg-para") and not (_re.search(r"^\s*cglen ", text, _re.M) and _re.search(r"^\s*fglen ", text, _re.M)):
+        problems.append("no cglen/fglen lines for a focusing method")
+    if meth and meth[0] == "mg-para":
+        pd = _re.findall(r"^\s*pdime (\d+) (\d+) (\d+)\s*$", text, _re.M)
+        if not pd or any(tuple(map(int, m)) != tuple(int(x) for x in size["proc_grid"]) for m in pd):
+            problems.append(f"pdime lines {pd}; the sizing object has processor grid {size['proc_grid']}")
+    r.add(key, not problems, f"input text: mol pqr {mol}, method {sorted(set(meth))}, dime {sorted(set(dime))}" + ("; " + "; ".join(problems) if problems else ""), where)
